@@ -215,7 +215,7 @@ impl Property for C10 {
          command line with up to 5 output groups drawn from fixed format sets (incl. symbols, mesen-mlb, annotated, addrspan, and command lines with several invalid format parameters) run \
          4 times in one process: on the worker thread, on a fresh thread, and on both again after a random history of 1-3 other jobs; every 40th case additionally runs the real binary 3 \
          times in fresh processes (stdout, stderr, exit status, files) and compares the files with the in-process run. Oracle: the full record - success flag, printed diagnostics, every \
-         written file - is byte-identical. Rust re-seeds every HashMap, so repeated runs already vary the iteration order. Non-trivial = the program declares >= 8 symbols, or fails \
+         written file - is byte-identical. Rust re-seeds every HashMap, so repeated runs already vary the iteration order. (v4) asm siblings, one case in eight: programs identical up to and including an asm-block rule that differ in the rules BEHIND it; 1-3 siblings are assembled on the worker's thread just before the job, whose record is then compared with a run on a fresh thread. Non-trivial = the program declares >= 8 symbols, or fails \
          with >= 2 diagnostics, or the command line has >= 2 invalid format parameters; distinct by hash of files + arguments."
             .to_string()
     }
